@@ -1,5 +1,6 @@
 (* Proofs/PartitionAlgo.v — the mirror of k_alternative_partition_brut_force (Model/PartitionAlgo.v).
 
+   (completeness / minimality: Proofs/PartitionComplete.v)
    MAIN RESULTS (every size, every order parameter set_order that permutes its argument)
      bf_sound          bf_algo ... = Some res -> partition_check alts votes res = true /\ length res <= k /\
                        length res <= ceil(m/2)         (votes: at least one, each a permutation of the alternatives)
@@ -556,7 +557,7 @@ Proof.
   rewrite Hle, Hc, Nat.eqb_refl. reflexivity.
 Qed.
 
-(* first step of the completeness argument (the rest is not proved, see Properties/C18.v): on an axis on which a vote
+(* on an axis on which a vote
    is single-peaked, the alternative the vote ranks last is one of the two end points *)
 Lemma sp_last_is_end v O x : NoDup O -> spv v O -> In x O ->
   (forall a, In a O -> a <> x -> rk v a < rk v x) ->
@@ -575,57 +576,6 @@ Proof.
     + now left.
     + apply in_or_app. right. right. now left.
 Qed.
-
-(* ---------------------------------------------------------------------------------------------- *)
-(* 8. completeness: kernel-checked on small domains only (see Properties/C18.v for what is missing) *)
-
-Fixpoint lists_of_len {T} (univ : list T) (n : nat) : list (list T) :=
-  match n with 0 => [[]] | S n' => flat_map (fun l => map (fun x => x :: l) univ) (lists_of_len univ n') end.
-
-(* every profile of exactly n votes (repetitions and every order of the votes included) over the alternatives
-   1..m, every k in 1..m+1: the mirror's answer satisfies the second sentence of the property *)
-Definition small_ok (m n : nat) : bool :=
-  let alts := map N.of_nat (seq 1 m) in
-  forallb (fun profile =>
-             let mn := min_partition alts profile in
-             forallb (fun k => brute_force_ok_with mn alts profile k (bf_algo (fun L => L) alts profile k)) (seq 1 (S m)))
-          (lists_of_len (Lib.Perms.perms alts) n).
-
-Lemma lists_of_len_spec {T} (univ : list T) n l :
-  In l (lists_of_len univ n) <-> length l = n /\ Forall (fun x => In x univ) l.
-Proof.
-  revert l; induction n as [|n IH]; intros l; simpl.
-  - split; [intros [<-|[]]; split; [reflexivity|constructor]|]. intros [H _]. destruct l; [now left|discriminate].
-  - rewrite in_flat_map. split.
-    + intros (l' & Hl' & H). apply in_map_iff in H. destruct H as (x & <- & Hx). apply IH in Hl'. destruct Hl' as [<- HF].
-      split; [reflexivity|now constructor].
-    + intros [Hlen HF]. destruct l as [|x l']; [discriminate|]. inversion HF; subst. exists l'. split.
-      * apply IH. split; [simpl in Hlen; lia|assumption].
-      * apply in_map_iff. eauto.
-Qed.
-
-(* what small_ok m n = true says *)
-Lemma small_ok_spec m n : small_ok m n = true ->
-  let alts := map N.of_nat (seq 1 m) in
-  forall profile, length profile = n -> Forall (fun v => Permutation alts v) profile ->
-  forall k, 1 <= k <= S m -> brute_force_ok alts profile k (bf_algo (fun L => L) alts profile k) = true.
-Proof.
-  intros H alts profile Hlen Hperm k Hk. unfold small_ok in H. fold alts in H. rewrite forallb_forall in H.
-  assert (Hin : In profile (lists_of_len (Lib.Perms.perms alts) n)).
-  { apply lists_of_len_spec. split; [assumption|]. eapply Forall_impl; [|exact Hperm]. intros v Hv. now apply Lib.Perms.perms_iff. }
-  specialize (H profile Hin). cbv zeta in H. rewrite forallb_forall in H. unfold brute_force_ok. apply H.
-  apply in_seq. lia.
-Qed.
-
-(* vm_cast_no_check: the computation is run once, by the kernel, at Qed *)
-Lemma small_ok_4 : small_ok 4 1 = true /\ small_ok 4 2 = true /\ small_ok 4 3 = true.
-Proof. split; [|split]; vm_cast_no_check (eq_refl true). Qed.
-Lemma small_ok_3 : small_ok 1 3 = true /\ small_ok 2 3 = true /\ small_ok 3 1 = true /\ small_ok 3 2 = true /\
-                   small_ok 3 3 = true /\ small_ok 3 4 = true.
-Proof. repeat split; vm_cast_no_check (eq_refl true). Qed.
-Lemma small_ok_5 : small_ok 5 1 = true.
-Proof. vm_cast_no_check (eq_refl true). Qed.
-
 
 (* ============================================================================================== *)
 (* 9. COMPLETENESS / MINIMALITY of the mirror (with place_complete of Proofs/ELPComplete.v)        *)
